@@ -9,7 +9,7 @@
    crashes. [reports ... f ms] are the matches among ms that a rule with filter f reports. *)
 From Coq Require Import List ZArith Bool String Lia.
 From RG.Base Require Import Outcome.
-From RG.Filters Require Import FilterIR FilterAlgebra.
+From RG.Filters Require Import FilterIR FilterAlgebra LoaderState.
 From RGW Require Import Gen_FilterTables Inst_C17.
 Import ListNotations.
 Local Open Scope string_scope.
@@ -199,7 +199,56 @@ Theorem C17_unknown_rejects_both : forall E k x c, k <> KText -> m_int E k true 
 Proof. exact (unknown_rejects_both gen_combinators gen_combinators_ok). Qed.
 Print Assumptions C17_unknown_rejects_both.
 
+(* ---------------------------------------------------------------- a filter is a function of its expression alone *)
+(* what newFilter and the methods it reaches touch besides their arguments (regenerated): nothing is written, only
+   the loader's configuration is read -- no memo table, no counter, no "previous filter" *)
+Theorem C17_loader_keeps_no_state : forall fn x w, In (fn, x, w) gen_loader_state -> w = false /\ In x loader_config.
+Proof. exact (loader_stateless_spec gen_loader_state (proj1 gen_loader_stateless)). Qed.
+Print Assumptions C17_loader_keeps_no_state.
+
+(* so the groups of a file are loaded independently: together = one by one *)
+Theorem C17_load_together_is_one_by_one : forall gs,
+  load_groups gen_tables gs = flat_map (fun g => load_groups gen_tables [g]) gs.
+Proof. exact (load_together_is_one_by_one gen_tables). Qed.
+Print Assumptions C17_load_together_is_one_by_one.
+
+Theorem C17_load_groups_pointwise : forall gs n,
+  nth_error (load_groups gen_tables gs) n = option_map (load gen_tables) (nth_error gs n).
+Proof. exact (load_groups_pointwise gen_tables). Qed.
+Print Assumptions C17_load_groups_pointwise.
+
+(* a memo table in front of the loader is invisible, for every sequence of filters, iff its key determines the filter *)
+Theorem C17_memo_transparent : forall (K : Type) (key : fexpr -> K) (keqb : K -> K -> bool),
+  key_determines (load gen_tables) key keqb -> forall l, calls (load gen_tables) key keqb [] l = map (load gen_tables) l.
+Proof. exact (fun K key keqb => memo_transparent (load gen_tables) key keqb). Qed.
+Print Assumptions C17_memo_transparent.
+
+Theorem C17_memo_unsound_witness : forall (K : Type) (key : fexpr -> K) (keqb : K -> K -> bool) a a',
+  keqb (key a') (key a) = true -> load gen_tables a <> load gen_tables a' ->
+  calls (load gen_tables) key keqb [] [a; a'] <> map (load gen_tables) [a; a'].
+Proof. exact (fun K key keqb => memo_unsound_witness (load gen_tables) key keqb). Qed.
+Print Assumptions C17_memo_unsound_witness.
+
 (* ---------------------------------------------------------------- non-vacuity *)
+(* m["x"].Type.Size > limit under `const limit = 8` and under `const limit = 64`: one spelling, two filters; a table
+   keyed by the spelling hands the second group the first group's closure *)
+Definition demo_size_gt (limit : Z) : fexpr :=
+  FE "FilterGtOp" VNone [FE "FilterVarTypeSizeOp" (VStr "x") []; FE "FilterIntOp" (VInt limit) []].
+
+Example c17_demo_spelling_is_not_a_key :
+  spelling gen_tables (demo_size_gt 8) = spelling gen_tables (demo_size_gt 64) /\
+  load gen_tables (demo_size_gt 8) = Some (LCmpConst KSize "x" "GTR" (CInt 8)) /\
+  load gen_tables (demo_size_gt 64) = Some (LCmpConst KSize "x" "GTR" (CInt 64)) /\
+  calls (load gen_tables) (spelling gen_tables) fexpr_eqb [] [demo_size_gt 8; demo_size_gt 64]
+    = [Some (LCmpConst KSize "x" "GTR" (CInt 8)); Some (LCmpConst KSize "x" "GTR" (CInt 8))].
+Proof. repeat split; vm_compute; reflexivity. Qed.
+
+(* the full expression is a key that determines the filter (here: on the two demo filters) *)
+Example c17_demo_expression_is_a_key :
+  calls (load gen_tables) (fun f => f) fexpr_eqb [] [demo_size_gt 8; demo_size_gt 64; demo_size_gt 8]
+    = map (load gen_tables) [demo_size_gt 8; demo_size_gt 64; demo_size_gt 8].
+Proof. vm_compute. reflexivity. Qed.
+
 Definition demo_env (line : Z) (iv : obs Z) : menv :=
   {| m_int := fun k _ _ => match k with KLine => Ok (Known line) | KValueInt => Ok iv | _ => Ok (Known 8%Z) end;
      m_str := fun _ _ => Ok (Known "abc");
